@@ -22,7 +22,51 @@ SELFTESTS = [refsmiles.selftest, GM.selftest]
 WELL_FORMED = re.compile(r"^(\[[^\[\].]*\])(\.?\[[^\[\].]*\])*$")
 
 
+def evaluate_text(case):
+    """SMILES-like text without ground truth (dictionary fragments, mutated corpus entries, spellings with redundant or odd
+    constructs): whatever the encoder accepts must be well formed, decodable and a fixpoint of encoder o decoder"""
+    if O.use_table(case["table"]) is None:
+        return Result(skipped="table not accepted by the library")
+    s = case["smiles"]
+    sample = dict(smiles=s[:160])
+    r = O.encode(s, strict=True)
+    if r[0] == "exc":
+        return Result(skipped="encoder raises another exception (C09's business)", sample=sample)
+    if r[0] == "err":
+        return Result(skipped="encoder does not accept", classes=("text_rejected",), sample=sample)
+    e = r[1]
+    sample["selfies"] = str(e)[:200]
+    classes = ["text_accepted"]
+    if not isinstance(e, str) or WELL_FORMED.fullmatch(e) is None:
+        if e == "":
+            return Result(skipped="empty translation", sample=sample)
+        return Result(Fail("malformed_selfies", smiles=s[:300], selfies=str(e)[:300]), False, classes, sample=sample)
+    d = O.decode(e)
+    if d[0] != "ok":
+        return Result(Fail("decode_of_encoder_output_failed", smiles=s[:300], selfies=e[:300], got=d, table=case["table"]), True, classes, sample=sample)
+    r3 = O.encode(d[1], strict=True)
+    fail = None
+    if r3[0] != "ok":
+        fail = Fail("reencode_rejected", smiles=s[:300], out=d[1][:300], got=r3, table=case["table"])
+    elif r3[1] != e:
+        a, b = _first_diff(e, r3[1])
+        fail = Fail("reencode_differs:text", smiles=s[:300], out=d[1][:300], first=a, second=b, table=case["table"])
+    else:
+        classes.append("reencoded")
+    return Result(fail, len(e) > 12, classes, sample=sample)
+
+
+def gen_text(ch):
+    from vf import gen_text as GT
+    s = GT.gen_smiles_text(ch)
+    if len(s) > 800:        # keeps every branch / ring span below 16^3 symbols (<= 5 symbols per character)
+        s = s[:800]
+    return dict(kind="text", table=ch.pick(["default", "hypervalent", {"?": 8}]), smiles=s)
+
+
 def evaluate(case):
+    if case.get("kind") == "text":
+        return evaluate_text(case)
     rt = RTM.roundtrip(case)
     sample = dict(smiles=case["smiles"][:160])
     if rt.skipped:
@@ -114,6 +158,10 @@ def gen_digit_placement(ch):
 def shard(ctx):
     ctx.drive("main", gen_case, ctx.n(2500, 40000), max_bytes=1200)
     ctx.drive("long_index", gen_long_index, ctx.n(10, 60), max_bytes=64)
+    ctx.drive("text", gen_text, ctx.n(1500, 25000), max_bytes=700)
+    for j, (name, smi) in enumerate(RTM.long_index_ladder(ctx.tier)):
+        if j % ctx.nshards == ctx.shard:
+            ctx.check(dict(table={"?": 8}, smiles=smi, truth=RTM.truth_from_reading(smi), source="template"))
     # a ladder of nesting depths, split over the shards (a handful of generated cases would all be the smallest ones)
     ladder = [(d, a) for d in (150, 300, 450, 500, 540, 580, 620, 650, 670) for a in ("C", "S", "N")]
     for j, (d, a) in enumerate(ladder):
